@@ -126,13 +126,17 @@ static std::vector<std::string> sched_gen(const GenArgs &ga) {
   // workload mix is itself a swarm choice
   int w_wrapper = 2 + (int)sw.below(6), w_private = (int)sw.below(5), w_publish = (int)sw.below(4), w_use = (int)sw.below(5),
       w_take = (int)sw.below(3), w_churn = (int)sw.below(4), w_hoard = (sw.chance(1, 3) || fsmode == "windows") ? 3 : 0, w_init = 1;
+  // a quarter of the runs also compile (only) for backends this machine cannot execute - few distinct programs,
+  // so that tasks meet in the same code generator with the same and with different programs
+  int w_x = sw.chance(1, 4) ? 4 : 0;
+  std::string x_tgt = std::vector<std::string>{"mips", "neon", "neon", "altivec", "c", "c64x-c"}[sw.below(6)];
   // "windows": tasks open and close windows in which the OS refuses every executable mapping, while they and the
   // others keep compiling (and hoarding, so that new regions are needed inside such windows)
   int w_window = fsmode == "windows" ? 3 : 0;
   for (int t = 0; t < ntasks; t++) {
     for (int i = 0; i < ops_per_task; i++) {
       std::string l = strf("t%d op ", t);
-      int tot = w_wrapper + w_private + w_publish + w_use + w_take + w_churn + w_hoard + w_window + w_init;
+      int tot = w_wrapper + w_private + w_publish + w_use + w_take + w_churn + w_hoard + w_window + w_x + w_init;
       int x = (int)pr.below(tot);
       if (i == 0 && init_first && pr.chance(1, 2)) x = tot - 1;
       else if (i == 0 && pr.chance(1, 2)) x = 0;   // first calls of wrappers race
@@ -160,6 +164,11 @@ static std::vector<std::string> sched_gen(const GenArgs &ga) {
         l += strf("churn spec=gen:%llu:%d:8:1 n=%d ds=%llu", (unsigned long long)(pr.next() >> 16), 1 + (int)pr.below(20), 1 + (int)pr.below(40),
                   (unsigned long long)(dr.next() >> 20));
         if (bc_den && pr.chance(1, bc_den)) l += " via=bc";
+      } else if ((x -= w_x) < 0) {
+        static const char *fx[] = {"fixed:addw", "fixed:subb", "fixed:copyb", "fixed:accl", "fixed:acc2", "fixed:mulll"};
+        std::string xs = pr.chance(1, 2) ? std::string(fx[pr.below(6)])   // (small programs every backend has rules for)
+                                         : strf("gen:%llu:%d:4:%d", (unsigned long long)(pr.next() >> 40) % 6, 1 + (int)pr.below(5), pr.chance(1, 2) ? 1 : 17);
+        l += strf("xcompile tgt=%s fset=%s spec=%s", x_tgt.c_str(), (x_tgt == "neon" && pr.chance(1, 2)) ? "0x8" : "0", xs.c_str());
       } else if ((x -= w_window) < 0) {
         l += strf("oswindow state=%s", pr.chance(1, 2) ? "deny" : "allow");
       } else if ((x -= w_hoard) < 0) {
@@ -337,6 +346,32 @@ static void op_private(int tid, const std::vector<std::string> &w, int opi) {
   orc_program_free(twin);
 }
 
+// compile (only) for a backend this machine cannot execute: other code generators, same compiler front end,
+// their own tables and helpers; the result is a function of the program alone
+static void op_xcompile(int tid, const std::vector<std::string> &w, int opi) {
+  std::string spec = kv(w, "spec"), tgt = kv(w, "tgt", "mips");
+  OrcTarget *t = orc_target_get_by_name(tgt.c_str());
+  if (!t) return;
+  ProgMeta meta;
+  (void)opi;
+  OrcProgram *p = build_program(spec, "xprog", &meta);   // (one name: the listing contains it)
+  if (p->n_insns > 6) { orc_program_free(p); return; }   // (long programs crash some of these backends: C05's subject)
+  unsigned flags = orc_target_get_default_flags(t) | (unsigned)kvu(w, "fset", 0);
+  int res = orc_program_compile_full(p, t, flags);
+  g_ctx->c->count("sched.foreign_backend_compiles");
+  OrcCode *code = p->orccode;
+  const char *a = orc_program_get_asm_code(p);
+  uint64_t h = mix2(mix2((uint64_t)res, code && code->chunk ? fnv(code->code, code->code_size) : 0), a ? fnv(a, strlen(a)) : 0);
+  std::string key = spec + "@" + tgt + "/" + kv(w, "fset", "0");
+  // (a compile that was refused code memory by the simulated OS of this run falls back: only completed ones compare)
+  if (!ORC_COMPILE_RESULT_IS_SUCCESSFUL(res)) { orc_program_free(p); return; }
+  auto it = g_ctx->code_hash_by_spec.find(key);
+  if (it == g_ctx->code_hash_by_spec.end()) g_ctx->code_hash_by_spec[key] = h;
+  else if (it->second != h)
+    fail("determinism", "concurrent-compile-differs", strf("task %d: the same program (%s) compiled for %s by two tasks yields different result, machine code or listing", tid, spec.c_str(), tgt.c_str()));
+  orc_program_free(p);
+}
+
 static void op_churn(int tid, const std::vector<std::string> &w, int opi) {
   std::string spec = kv(w, "spec");
   std::string name = strf("t%dc%d", tid, opi);
@@ -448,6 +483,7 @@ static void task_main(int tid) {
     else if (op == "wrapper") op_wrapper(tid, w);
     else if (op == "private") op_private(tid, w, (int)i);
     else if (op == "churn") op_churn(tid, w, (int)i);
+    else if (op == "xcompile") op_xcompile(tid, w, (int)i);
     else if (op == "publish") op_publish(tid, w, (int)i);
     else if (op == "use") op_use(tid, w);
     else if (op == "take") op_take(tid, w);
